@@ -87,6 +87,38 @@ struct RealRun {
     out: Outc,
     /// the buffer after the call is exactly the last `len - consumed` bytes of the input
     suffix_ok: bool,
+    /// bytes removed from the buffer by the call
+    consumed: usize,
+}
+
+/// Feed `first` then the rest of `all` into ONE buffer, decoding after each chunk (how the
+/// connection loop uses the decoder): the first call must ask for more without touching the
+/// buffer, the second must yield what a single call on the whole input yields.
+fn run_real_chunked(startup: bool, all: &[u8], cut: usize) -> Result<(), String> {
+    let r = catch_unwind(AssertUnwindSafe(|| {
+        let mut buf = BytesMut::from(&all[..cut]);
+        let r1 = if startup { FrontendMessage::decode_startup(&mut buf) } else { FrontendMessage::decode(&mut buf) };
+        let after1 = buf.to_vec();
+        buf.extend_from_slice(&all[cut..]);
+        let r2 = if startup { FrontendMessage::decode_startup(&mut buf) } else { FrontendMessage::decode(&mut buf) };
+        (format!("{:?}", r1.map(|m| m.map(conv))), after1, format!("{:?}", r2.map(|m| m.map(conv))), buf.to_vec())
+    }));
+    let (r1, after1, r2, left2) = r.map_err(|_| "decoder panicked while a frame arrived in two chunks".to_string())?;
+    let whole = {
+        let mut buf = BytesMut::from(all);
+        let r = if startup { FrontendMessage::decode_startup(&mut buf) } else { FrontendMessage::decode(&mut buf) };
+        (format!("{:?}", r.map(|m| m.map(conv))), buf.to_vec())
+    };
+    if r1 != "Ok(None)" {
+        return Err(format!("first chunk ({} of {} bytes): expected need-more, got {}", cut, all.len(), r1));
+    }
+    if after1 != all[..cut] {
+        return Err(format!("need-more consumed bytes: buffer after the first call is {} but the chunk was {}", hx(&after1), hx(&all[..cut])));
+    }
+    if (r2.clone(), left2.clone()) != whole {
+        return Err(format!("after the second chunk: {} (left {}) but decoding the whole input at once gives {} (left {})", r2, hx(&left2), whole.0, hx(&whole.1)));
+    }
+    Ok(())
 }
 
 fn run_real(startup: bool, bytes: &[u8]) -> RealRun {
@@ -98,7 +130,7 @@ fn run_real(startup: bool, bytes: &[u8]) -> RealRun {
     match r {
         Err(e) => {
             let msg = e.downcast_ref::<String>().cloned().or_else(|| e.downcast_ref::<&str>().map(|s| s.to_string())).unwrap_or_default();
-            RealRun { out: Outc::Panic(msg), suffix_ok: true }
+            RealRun { out: Outc::Panic(msg), suffix_ok: true, consumed: 0 }
         }
         Ok((res, left)) => {
             let consumed = bytes.len().saturating_sub(left.len());
@@ -111,7 +143,7 @@ fn run_real(startup: bool, bytes: &[u8]) -> RealRun {
                 Err(ProtocolError::InvalidString) => Outc::Err("invalid-string".into(), consumed),
                 Err(other) => Outc::Err(format!("other:{}", other), consumed),
             };
-            RealRun { out, suffix_ok }
+            RealRun { out, suffix_ok, consumed }
         }
     }
 }
@@ -270,6 +302,9 @@ impl Ctx {
         match &real.out {
             Outc::Panic(p) => oracle_fail = Some(format!("decoder panicked: {}", p)),
             Outc::NeedMore => {
+                if real.consumed != 0 {
+                    oracle_fail = Some(format!("asks for more bytes but already consumed {} byte(s) of the buffer", real.consumed));
+                }
                 let incomplete = b.len() < min_hdr || matches!(dl, Some(l) if l >= minlen && (b.len() as i64) < extra + l);
                 if !incomplete {
                     oracle_fail = Some("asks for more bytes although header and declared frame are complete (or the length is invalid)".into());
@@ -330,6 +365,17 @@ impl Ctx {
             }
             v
         };
+        // the frame (+ tail) arriving in two chunks into one buffer, cut at a few points incl. 5
+        // (header complete, body not)
+        let mut cuts: Vec<usize> = vec![1, 4, 5, 6, enc.len() / 2, enc.len() - 1];
+        cuts.retain(|c| *c >= 1 && *c < enc.len());
+        cuts.dedup();
+        for cut in cuts {
+            self.rep.count("chunked_delivery");
+            if let Err(w) = run_real_chunked(startup, &b, cut) {
+                self.rep.fail(FailKind::Oracle, None, &format!("frame delivered in two chunks: {}", w), &format!("{} {} (cut after {} bytes)", if startup { "startup" } else { "decode" }, hx(&b), cut));
+            }
+        }
         for k in ks {
             let got = self.check(startup, &b[..k], "prefix");
             if got != Outc::NeedMore {
